@@ -368,6 +368,8 @@ func runC16(c *Ctx) {
 	checkWatchedAddressSetOnlyGrows(c, "C16-R6")
 	checkAddrTypeFollowsBranch(c, "C16-R4")
 	checkBirthdayMargin(c, "C16-R6")
+	checkFoundIndexSetsAccumulate(c, "C16-R2")
+	checkFilterRequestCarriesEveryAddress(c, "C16-R1")
 	checkRecoveryWindowForms(c, "C16-R6")
 	// ---------- R5 ----------
 	if rec := walletFn(c, "C16-R5", "recovery"); rec != nil {
